@@ -73,9 +73,7 @@ let cause_of = function
   | "TooBig" -> TooBig | "Layout" -> Layout | c -> failwith ("bad cause " ^ c)
 
 (* layer-3 operations; the name argument of the signal constructors is not part of the model *)
-let parse_op = function
-  | ["NewStdSignal"; _; t] -> NewStdSignal (oh t)
-  | ["NewEnumSignal"; _; e] -> NewEnumSignal (oh e)
+let parse_op3 = function
   | ["StdSetType"; a; t; f] -> StdSetType (hd_ a, oh t, bb f)
   | ["StdSetUnit"; a; u] -> StdSetUnit (hd_ a, oh u)
   | ["EnumSetEnum"; a; e; f] -> EnumSetEnum (hd_ a, oh e, bb f)
@@ -84,6 +82,25 @@ let parse_op = function
   | ["RemoveAllAssign"; e] -> RemoveAllAssign (hd_ e)
   | ["BusSetBuilder"; b; c] -> BusSetBuilder (hd_ b, oh c)
   | l -> L1 (parse_l1 l)
+
+(* layer-2 operations *)
+let parse_op = function
+  | ["NewStdSignal"; n; t] -> NewStd2 (nm n, oh t)
+  | ["NewEnumSignal"; n; e] -> NewEnum2 (nm n, oh e)
+  | ["NewMuxSignal"; n; c; g] -> NewMux2 (nm n, zz c, zz g)
+  | ["MsgAppendSignal"; m; x; f] -> MsgAttach (hd_ m, oh x, bb f)
+  | ["MsgInsertSignal"; m; x; _; f] -> MsgAttach (hd_ m, oh x, bb f)
+  | ["MsgRemoveSignal"; m; k] -> MsgRemoveSignal (hd_ m, hd_ k)
+  | ["MsgRemoveAllSignals"; m] -> MsgRemoveAllSignals (hd_ m)
+  | ["SigUpdateName"; x; n] -> SigUpdateName (hd_ x, nm n)
+  | "MuxInsertSignal" :: u :: x :: _ :: rest ->
+    (match List.rev rest with
+     | f :: ids -> MuxInsert (hd_ u, oh x, bb f, List.map zz (List.rev ids))
+     | [] -> failwith "MuxInsertSignal without oracle token")
+  | ["MuxRemoveSignal"; u; k] -> MuxRemove (hd_ u, hd_ k)
+  | ["MuxClearGroup"; u; g] -> MuxClearGroup (hd_ u, zz g)
+  | ["MuxClearAll"; u] -> MuxClearAll (hd_ u)
+  | l -> L3 (parse_op3 l)
 
 let cause_s = function
   | Duplicated -> "Duplicated" | NotFound -> "NotFound" | Negative -> "Negative"
@@ -110,7 +127,8 @@ let mzh m = map_s z_of_coqz zs (map_zh m)
 let mhh m = map_s z_of_pos ps (map_hh m)
 let heap f l = List.map (fun (h, r) -> (z_of_pos h, f h r)) l
 
-let dump (s3 : state3) : string =
+let dump (s2 : state2) : string =
+  let s3 = s2.l3 in
   let s = s3.base in
   let refs tag m = List.filter_map (fun (h, l) -> if l = [] then None else
       Some (z_of_pos h, Printf.sprintf "%s%s:%s" tag (ps h) (String.concat "," (List.map ps (sort_by z_of_pos l))))) (refs_list m) in
@@ -134,13 +152,31 @@ let dump (s3 : state3) : string =
                (match r.sg_kind with SStd -> "0" | SEnum -> "1" | SMux -> "2") (opt r.sg_type) (opt r.sg_unit) (opt r.sg_enum))
         (heap_sigs s3) in
   let l1 = String.concat "|" (List.map snd (List.sort (fun (a, _) (b, _) -> BZ.compare a b) items)) in
-  let ext = refs "Rt" s3.type_refs @ refs "Ru" s3.unit_refs @ refs "Re" s3.enum_refs @ refs "Ra" s3.attr_refs
+  let nmap l = String.concat "," (List.map (fun (k, v) -> ns k ^ ">" ^ ps v) (sort_by (fun (k, _) -> z_of_coqn k) l)) in
+  let find h l = match List.assoc_opt h l with Some x -> x | None -> [] in
+  let setl h m = String.concat "," (List.map ps (sort_by z_of_pos (find h (refs_list m)))) in
+  let optl h l = match List.assoc_opt h l with Some x -> ps x | None -> "-" in
+  let pm = map_hh s2.spmsg and px = map_hh s2.spmux in
+  let sigitems = List.map (fun (h, n) -> (z_of_pos h, Printf.sprintf "G%s:n=%s;pm=%s;px=%s" (ps h) (ns n) (optl h pm) (optl h px))) (map_hn s2.sname) in
+  let gl = gids_list s2 in
+  let muxitems = List.map (fun (h, (c, g)) ->
+      let gi = String.concat "," (List.map (fun (x, ids) -> ps x ^ ":" ^ String.concat "+" (List.map zs ids))
+                                     (sort_by (fun (x, _) -> z_of_pos x) (find h gl))) in
+      (z_of_pos h, Printf.sprintf "X%s:c=%s;g=%s;s=%s;sn=%s;f=%s;gi=%s" (ps h) (zs c) (zs g) (setl h s2.xsigs)
+                     (nmap (find h (names_list s2.xnames))) (setl h s2.xfixed) gi)) (shape_list s2) in
+  let msgitems = List.filter_map (fun (h, _) ->
+      let t = setl h s2.mtop and r = setl h s2.msigs and rn = nmap (find h (names_list s2.mnames)) in
+      if t = "" && r = "" && rn = "" then None
+      else Some (z_of_pos h, Printf.sprintf "T%s:t=%s;r=%s;rn=%s" (ps h) t r rn)) (heap_msgs s) in
+  let ext = sigitems @ muxitems @ msgitems @ refs "Rt" s3.type_refs @ refs "Ru" s3.unit_refs @ refs "Re" s3.enum_refs @ refs "Ra" s3.attr_refs
             @ refs "As" s3.assigns @ refs "Rc" s3.builder_refs
             @ List.map (fun (b, c) -> (z_of_pos b, Printf.sprintf "Bb%s:%s" (ps b) (ps c))) (builder_list s3) in
   (* the extension is printed grouped by kind, each group sorted by handle *)
   let grp tag = List.map snd (List.sort (fun (a, _) (b, _) -> BZ.compare a b)
       (List.filter (fun (_, x) -> String.length x >= 2 && String.sub x 0 2 = tag) ext)) in
-  String.concat "|" (l1 :: List.concat_map grp ["Rt"; "Ru"; "Re"; "Ra"; "As"; "Rc"; "Bb"])
+  let grp1 c = List.map snd (List.sort (fun (a, _) (b, _) -> BZ.compare a b)
+      (List.filter (fun (_, x) -> String.length x >= 1 && x.[0] = c && (String.length x < 2 || (x.[1] >= '0' && x.[1] <= '9'))) ext)) in
+  String.concat "|" (l1 :: grp1 'G' @ grp1 'X' @ grp1 'T' @ List.concat_map grp ["Rt"; "Ru"; "Re"; "Ra"; "As"; "Rc"; "Bb"])
 
 let split_ws s = List.filter (fun x -> x <> "") (String.split_on_char ' ' s)
 
@@ -148,7 +184,7 @@ let () =
   let ic = open_in Sys.argv.(1) in
   let verbose = Array.length Sys.argv > 2 && Sys.argv.(2) = "-v" in
   let hist = ref 0 and stepn = ref 0 and steps = ref 0 and cases = ref 0 and bad = ref 0 in
-  let st = ref init3 and res = ref Ok and opline = ref "" in
+  let st = ref init2 and res = ref Ok and opline = ref "" in
   let dead = ref false in   (* after a mismatch / panic the rest of the history is skipped *)
   let report kind impl model =
     incr bad; dead := true;
@@ -160,10 +196,10 @@ let () =
       if n >= 2 && line.[0] <> '#' then begin
         let body = String.sub line 2 (n - 2) in
         match line.[0] with
-        | 'H' -> hist := int_of_string (String.trim body); st := init3; stepn := 0; dead := false; incr cases
+        | 'H' -> hist := int_of_string (String.trim body); st := init2; stepn := 0; dead := false; incr cases
         | 'O' when not !dead ->
           incr stepn; incr steps; opline := body;
-          let (s', r) = step3 !st (parse_op (split_ws body)) in
+          let (s', r) = step2 !st (parse_op (split_ws body)) in
           st := s'; res := r;
           if verbose then Printf.printf "op %s\n" body
         | 'R' when not !dead ->
